@@ -38,7 +38,9 @@ UNI_MODELS_QUICK = [('beta',), ('gamma',), ('gaussian',), ('loglaplace',), ('stu
                     ('kde', 0.5, None, False), ('kde', None, 12, False), ('kde', 'scott', None, True),
                     ('univariate', 'default'), ('univariate', 'parametric'), ('univariate', 'cands-instances')]
 BIV = [('clayton', 0.5), ('clayton', 4.0), ('gumbel', 1.0), ('gumbel', 2.5), ('frank', -5.74), ('frank', 3.0),
-       ('clayton', None), ('gumbel', None), ('frank', None)]
+       ('clayton', None), ('gumbel', None), ('frank', None),
+       # edge parameters reached by fitting perfectly comonotone data: Clayton theta = inf, Frank theta at its upper bound
+       ('clayton', 'comonotone'), ('frank', 'comonotone')]
 GM_CFG = ('gaussian-class', 'default', 'kde-instance', 'dict', 'uniform-name', 'truncated-class')
 GM_TABLES = [(2, 'equi+', 'rotated', (), 30, 'str'), (3, 'mixed', 'rotated', (1,), 30, 'int'),
              (3, 'ar1', 'normal', (), 30, 'str')]
@@ -104,6 +106,15 @@ def build(spec, random_state=None):
         if spec[2] is None:
             from copulas.bivariate.base import Bivariate
             return Bivariate(copula_type=spec[1], random_state=random_state)
+        if spec[2] == 'comonotone':
+            import warnings as _w
+            from copulas.bivariate.base import Bivariate
+            c = Bivariate(copula_type=spec[1], random_state=random_state)
+            u = np.linspace(0.02, 0.98, 20)
+            with _w.catch_warnings():
+                _w.simplefilter('ignore')
+                c.fit(np.column_stack([u, u]))
+            return c
         return make_biv(spec[1], spec[2], random_state=random_state)
     if k == 'gm':
         from copulas.multivariate import GaussianMultivariate
